@@ -1,31 +1,36 @@
 """`component_graph.py` classification predicates + the tables of the formula generators -> Lean (C12).
 
-Pure `ast`.  What is extracted (the Lean model `Frequenz/Model/Graph.lean` is parametrised by all of it):
+HOW.  The anchored functions are *evaluated*, not pattern-matched: their definitions are taken from the
+current source with `ast` (annotations, decorators and docstrings dropped; imports NOT executed; the repo is
+never imported), compiled into a sandbox whose only other contents are stubs (`ComponentCategory`,
+`InverterType`, `Component`, a graph whose `successors/predecessors/components` are answered from a scenario,
+`connection_manager.get()`, a recording formula builder), and run on an exhaustive family of small scenarios.
+The observed truth tables / generated formulas are then *fitted* to the parameters of the Lean model
+(`Frequenz/Model/Graph.lean`): each parameter is searched over its whole candidate space and must reproduce
+the observations on EVERY scenario; if no candidate does, the extractor raises (the check then treats the
+proof as broken and searches for a failing input).  So the Lean terms always come from what the current
+source *does*; how it is written (names, statement order, early returns vs nested ifs, helper functions in
+the same class/module, comprehensions vs loops, operand order) is irrelevant.
 
-  component_graph.py
-    is_pv_inverter / is_battery_inverter / is_ev_charger / is_chp   -> Bool functions on (category, inverter type)
-    is_pv_meter / is_battery_meter / is_ev_charger_meter / is_chp_meter
-        -> MeterSpec {category, "not is_grid_meter" present?, "len(successors) > 0" present?, leaf predicate of the all(...)}
-    is_*_chain        -> (leaf predicate, meter predicate) of the `or`
-    is_grid_meter     -> GridMeterSpec {category, #predecessors, predecessor category, #grid successors}
-    dfs               -> shape check only (stop at first match, visited set, union over successors); raises if changed
-    _validate_*       -> category tables (valid roots, intermediary, leaf)
-  generators
-    grid:      category set of the grid successors that are summed
-    consumer:  `_are_grid_meters` (category + excluded chains), `non_consumer_component` (chains),
-               `consumer_component` (category set + excluded chains)
-    producer:  chains of the dfs condition;   pv: chain of the dfs condition
-    _formula_generator: leaf predicates of `_get_meter_fallback_components`, pairs of `_is_primary_fallback_pair`,
-               NON_EXISTING_COMPONENT_ID, whether `_get_metric_fallback_components` requires all successors of the
-               predecessor to be requested before pairing (false on the pinned tree)
-    every generator: how `nones_are_zeros` is computed at each push_component_metric, the metric id of the builder
-    chp:       required predecessor category / count
-
-Anything that does not have the expected shape raises (the check then searches for a failing input).
+Extracted (all consumed by the model; lists whose order cannot matter — they are only used under any/all/
+membership — are emitted in a fixed canonical order):
+  component_graph.py   is_pv_inverter / is_battery_inverter / is_ev_charger / is_chp   (category, inverter type)
+                       is_*_meter -> MeterSpec;  is_*_chain -> (leaf, meter) ;  is_grid_meter -> GridMeterSpec
+                       dfs == "stop at the first match, union over successors" on all scenarios (else raise)
+                       _validate_* category sets (syntactic, informational only)
+  _formula_generator   _get_meter_fallback_components -> leaves; _is_primary_fallback_pair -> pairs;
+                       _get_metric_fallback_components -> primary category, pairRequiresAllRequested;
+                       NON_EXISTING_COMPONENT_ID
+  generators           grid successor categories; _are_grid_meters (category, excluded chains);
+                       consumer searches (chains / categories); producer and PV search chains;
+                       battery inverter predicate; CHP category / predecessor category;
+                       every nones_are_zeros rule; the metric id of every builder
 """
 from __future__ import annotations
 
 import ast
+import copy
+import itertools
 import pathlib
 import sys
 
@@ -34,6 +39,7 @@ GEN = "src/frequenz/sdk/timeseries/formula_engine/_formula_generators/"
 SOURCES = [
     "src/frequenz/sdk/microgrid/component_graph.py",
     GEN + "_formula_generator.py",
+    GEN + "_simple_formula.py",
     GEN + "_grid_power_formula_base.py",
     GEN + "_grid_power_formula.py",
     GEN + "_consumer_power_formula.py",
@@ -42,7 +48,6 @@ SOURCES = [
     GEN + "_pv_power_formula.py",
     GEN + "_ev_charger_power_formula.py",
     GEN + "_chp_power_formula.py",
-    GEN + "_simple_formula.py",
 ]
 
 CATS = {"NONE": "none", "GRID": "grid", "METER": "meter", "INVERTER": "inverter", "BATTERY": "battery",
@@ -64,159 +69,12 @@ def need(cond: bool, what: str) -> None:
         raise Shape(what)
 
 
-# ----------------------------------------------------------------------------- ast helpers
+# ============================================================================= ast utilities
 def body_of(fn: ast.FunctionDef) -> list[ast.stmt]:
     b = list(fn.body)
     if b and isinstance(b[0], ast.Expr) and isinstance(b[0].value, ast.Constant) and isinstance(b[0].value.value, str):
         b = b[1:]
     return b
-
-
-def methods(tree: ast.AST, cls: str) -> dict[str, ast.FunctionDef]:
-    for n in ast.walk(tree):
-        if isinstance(n, ast.ClassDef) and n.name == cls:
-            return {f.name: f for f in n.body if isinstance(f, (ast.FunctionDef, ast.AsyncFunctionDef))}
-    raise Shape(f"class {cls} not found")
-
-
-def all_functions(tree: ast.AST) -> dict[str, ast.FunctionDef]:
-    return {f.name: f for f in ast.walk(tree) if isinstance(f, ast.FunctionDef)}
-
-
-def enum_member(e: ast.expr, enum: str, table: dict[str, str]) -> str:
-    need(isinstance(e, ast.Attribute) and isinstance(e.value, ast.Name) and e.value.id == enum,
-         f"expected {enum}.<member>, got {ast.unparse(e)}")
-    need(e.attr in table, f"unknown {enum} member {e.attr}")
-    return table[e.attr]
-
-
-def single_return(fn: ast.FunctionDef) -> ast.expr:
-    b = body_of(fn)
-    need(len(b) >= 1 and isinstance(b[-1], ast.Return) and b[-1].value is not None
-         and all(isinstance(s, ast.Assign) and ast.unparse(s.value) == "connection_manager.get().component_graph"
-                 for s in b[:-1]), f"{fn.name}: expected a single return")
-    return b[-1].value
-
-
-def conjuncts(e: ast.expr) -> list[ast.expr]:
-    return list(e.values) if isinstance(e, ast.BoolOp) and isinstance(e.op, ast.And) else [e]
-
-
-def disjuncts(e: ast.expr) -> list[ast.expr]:
-    return list(e.values) if isinstance(e, ast.BoolOp) and isinstance(e.op, ast.Or) else [e]
-
-
-def is_cmp(e: ast.expr, op: type) -> bool:
-    return isinstance(e, ast.Compare) and len(e.ops) == 1 and isinstance(e.ops[0], op)
-
-
-def attr_of_name(e: ast.expr, attr: str) -> bool:
-    """`<name>.<attr>`"""
-    return isinstance(e, ast.Attribute) and e.attr == attr and isinstance(e.value, ast.Name)
-
-
-def method_call(e: ast.expr, table: dict[str, str]) -> str | None:
-    """`<obj>.<method>(<one arg>)` with method in table -> table value."""
-    if isinstance(e, ast.Call) and isinstance(e.func, ast.Attribute) and e.func.attr in table and len(e.args) == 1 \
-            and not e.keywords:
-        return table[e.func.attr]
-    return None
-
-
-def negated(e: ast.expr) -> ast.expr | None:
-    return e.operand if isinstance(e, ast.UnaryOp) and isinstance(e.op, ast.Not) else None
-
-
-def cat_set(e: ast.expr) -> list[str]:
-    need(isinstance(e, ast.Set), f"expected a set literal of categories, got {ast.unparse(e)}")
-    return [enum_member(x, "ComponentCategory", CATS) for x in e.elts]
-
-
-def all_over(e: ast.expr, table: dict[str, str]) -> str | None:
-    """`all(<obj>.<pred>(x) for x in <iter>)` -> pred"""
-    if isinstance(e, ast.Call) and isinstance(e.func, ast.Name) and e.func.id == "all" and len(e.args) == 1 \
-            and isinstance(e.args[0], ast.GeneratorExp) and len(e.args[0].generators) == 1 \
-            and not e.args[0].generators[0].ifs:
-        return method_call(e.args[0].elt, table)
-    return None
-
-
-# ----------------------------------------------------------------------------- component_graph.py
-def parse_leaf(fn: ast.FunctionDef) -> tuple[str, str | None]:
-    cat, typ = None, None
-    for c in conjuncts(single_return(fn)):
-        need(is_cmp(c, ast.Eq), f"{fn.name}: expected `==` comparisons, got {ast.unparse(c)}")
-        lhs, rhs = c.left, c.comparators[0]
-        if attr_of_name(lhs, "category"):
-            need(cat is None, f"{fn.name}: two category tests")
-            cat = enum_member(rhs, "ComponentCategory", CATS)
-        elif attr_of_name(lhs, "type"):
-            need(typ is None, f"{fn.name}: two type tests")
-            typ = enum_member(rhs, "InverterType", INVTYPES)
-        else:
-            raise Shape(f"{fn.name}: unexpected test {ast.unparse(c)}")
-    need(cat is not None, f"{fn.name}: no category test")
-    return cat, typ
-
-
-def parse_meter_pred(fn: ast.FunctionDef) -> dict:
-    b = body_of(fn)
-    need(isinstance(b[-1], ast.Return) and b[-1].value is not None, f"{fn.name}: last statement must be a return")
-    for s in b[:-1]:
-        need(isinstance(s, ast.Assign) and ast.unparse(s.value).startswith("self.successors("),
-             f"{fn.name}: unexpected statement {ast.unparse(s)}")
-    spec = {"cat": None, "notGridMeter": False, "nonEmpty": False, "leaf": None}
-    for c in conjuncts(b[-1].value):
-        n = negated(c)
-        if is_cmp(c, ast.Eq) and attr_of_name(c.left, "category"):
-            spec["cat"] = enum_member(c.comparators[0], "ComponentCategory", CATS)
-        elif n is not None and method_call(n, {"is_grid_meter": "g"}):
-            spec["notGridMeter"] = True
-        elif is_cmp(c, ast.Gt) and ast.unparse(c.left).startswith("len(") and ast.unparse(c.comparators[0]) == "0":
-            spec["nonEmpty"] = True
-        elif all_over(c, LEAVES):
-            need(spec["leaf"] is None, f"{fn.name}: two all(...) tests")
-            spec["leaf"] = all_over(c, LEAVES)
-        else:
-            raise Shape(f"{fn.name}: unexpected conjunct {ast.unparse(c)}")
-    need(spec["cat"] is not None and spec["leaf"] is not None, f"{fn.name}: category test or all(...) missing")
-    return spec
-
-
-def parse_chain(fn: ast.FunctionDef) -> tuple[str, str]:
-    ds = disjuncts(single_return(fn))
-    need(len(ds) == 2, f"{fn.name}: expected `is_leaf(c) or is_meter(c)`")
-    leaf, meter = method_call(ds[0], LEAVES), method_call(ds[1], METERS)
-    need(leaf is not None and meter is not None, f"{fn.name}: expected `is_leaf(c) or is_meter(c)`")
-    return leaf, meter
-
-
-def parse_grid_meter(fn: ast.FunctionDef) -> dict:
-    b = body_of(fn)
-    need(len(b) == 7, "is_grid_meter: expected 7 statements")
-
-    def guard(s: ast.stmt) -> ast.Compare:
-        need(isinstance(s, ast.If) and not s.orelse and len(s.body) == 1 and isinstance(s.body[0], ast.Return)
-             and isinstance(s.body[0].value, ast.Constant) and s.body[0].value.value is False
-             and is_cmp(s.test, ast.NotEq), f"is_grid_meter: expected `if a != b: return False`, got {ast.unparse(s)}")
-        return s.test  # type: ignore[return-value]
-
-    g0, g2, g4 = guard(b[0]), guard(b[2]), guard(b[4])
-    need(attr_of_name(g0.left, "category"), "is_grid_meter: first guard must test the category")
-    cat = enum_member(g0.comparators[0], "ComponentCategory", CATS)
-    need(isinstance(b[1], ast.Assign) and ".predecessors(" in ast.unparse(b[1].value), "is_grid_meter: predecessors")
-    need(ast.unparse(g2.left).startswith("len(") and isinstance(g2.comparators[0], ast.Constant), "is_grid_meter: len(preds)")
-    npred = g2.comparators[0].value
-    need(isinstance(b[3], ast.Assign) and ast.unparse(b[3].value).startswith("next(iter("), "is_grid_meter: next(iter(..))")
-    need(attr_of_name(g4.left, "category"), "is_grid_meter: third guard must test the predecessor's category")
-    pcat = enum_member(g4.comparators[0], "ComponentCategory", CATS)
-    need(isinstance(b[5], ast.Assign) and ".successors(" in ast.unparse(b[5].value), "is_grid_meter: successors")
-    r = b[6]
-    need(isinstance(r, ast.Return) and is_cmp(r.value, ast.Eq) and ast.unparse(r.value.left).startswith("len(")
-         and isinstance(r.value.comparators[0], ast.Constant), "is_grid_meter: return len(grid_successors) == n")
-    nsucc = r.value.comparators[0].value
-    need(isinstance(npred, int) and isinstance(nsucc, int), "is_grid_meter: integer counts")
-    return {"cat": cat, "npred": npred, "pcat": pcat, "nsucc": nsucc}
 
 
 class _Renamer(ast.NodeTransformer):
@@ -246,9 +104,8 @@ class _Renamer(ast.NodeTransformer):
 
 
 def normalized(fn: ast.FunctionDef) -> str:
-    """Source of `fn` without docstring/annotations, locals renamed in order of first appearance."""
-    import copy
-
+    """Source of `fn` without docstring/annotations, locals renamed in order of first appearance
+    (used by the harness for its function-level source fingerprints)."""
     f = copy.deepcopy(fn)
     f.body = body_of(f)
     f.returns = None
@@ -261,78 +118,355 @@ def normalized(fn: ast.FunctionDef) -> str:
     return "\n".join(ast.unparse(s) for s in f.body)
 
 
-DFS_SHAPE = "\n".join([
-    "if v1 in v2:",
-    "    return set()",
-    "v2.add(v1)",
-    "if v3(v1):",
-    "    return {v1}",
-    "v4 = set()",
-    "for v5 in v0.successors(v1.component_id):",
-    "    v4.update(v0.dfs(v5, v2, v3))",
-    "return v4",
-])
+class _Strip(ast.NodeTransformer):
+    """Drop annotations, decorators and docstrings (nothing of them is evaluated in the sandbox)."""
+
+    def visit_FunctionDef(self, node: ast.FunctionDef) -> ast.AST:
+        node.returns = None
+        node.decorator_list = []
+        for a in node.args.posonlyargs + node.args.args + node.args.kwonlyargs:
+            a.annotation = None
+        if node.args.vararg:
+            node.args.vararg.annotation = None
+        if node.args.kwarg:
+            node.args.kwarg.annotation = None
+        node.body = body_of(node) or [ast.Pass()]
+        self.generic_visit(node)
+        return node
+
+    def visit_AnnAssign(self, node: ast.AnnAssign) -> ast.AST:
+        self.generic_visit(node)
+        if node.value is None:
+            return ast.Pass()
+        return ast.copy_location(ast.Assign(targets=[node.target], value=node.value), node)
 
 
-def category_set_in(fn: ast.FunctionDef, what: str) -> list[str]:
-    """The `component_categories={...}` literal / `valid_root_types = {...}` inside a validator."""
-    for n in ast.walk(fn):
-        if isinstance(n, ast.Set) and n.elts and all(
-                isinstance(x, ast.Attribute) and isinstance(x.value, ast.Name) and x.value.id == "ComponentCategory"
-                for x in n.elts):
-            return cat_set(n)
-    raise Shape(f"{what}: no category set literal")
+# ============================================================================= sandbox stubs
+class Member:
+    def __init__(self, enum: str, name: str) -> None:
+        self.enum, self.name, self.value = enum, name, name
+
+    def __repr__(self) -> str:
+        return f"{self.enum}.{self.name}"
 
 
-# ----------------------------------------------------------------------------- generators
-def naz_kind(e: ast.expr, lambdas: dict[str, ast.expr]) -> str:
-    """Classify the `nones_are_zeros=` argument: `true`, `false`, or `notCat <cat>` (category != <cat>)."""
-    if isinstance(e, ast.Constant) and isinstance(e.value, bool):
-        return "(.const true)" if e.value else "(.const false)"
-    if is_cmp(e, ast.NotEq) and isinstance(e.left, ast.Attribute) and e.left.attr == "category":
-        return f"(.notCat .{enum_member(e.comparators[0], 'ComponentCategory', CATS)})"
-    if isinstance(e, ast.Call) and isinstance(e.func, ast.Name) and e.func.id in lambdas and len(e.args) == 1:
-        return naz_kind(lambdas[e.func.id], lambdas)
-    raise Shape(f"nones_are_zeros: unsupported expression {ast.unparse(e)}")
+class EnumNS:
+    def __init__(self, enum: str, names: list[str] | None) -> None:
+        self._enum, self._open, self._m = enum, names is None, {}
+        for n in names or []:
+            self._m[n] = Member(enum, n)
+
+    def __getattr__(self, name: str) -> Member:
+        if name.startswith("_"):
+            raise AttributeError(name)
+        if name not in self._m:
+            if not self._open:
+                raise Shape(f"unknown {self._enum} member {name}")
+            self._m[name] = Member(self._enum, name)
+        return self._m[name]
+
+    def __iter__(self):
+        return iter(self._m.values())
 
 
-def naz_calls(fn: ast.FunctionDef) -> list[tuple[str, str, bool]]:
-    """[(kind, first-arg source, has fallback kw)] for every push_component_metric call, in source order."""
-    lambdas: dict[str, ast.expr] = {}
-    for n in ast.walk(fn):
-        if isinstance(n, (ast.Assign, ast.AnnAssign)) and isinstance(n.value, ast.Lambda):
-            t = n.targets[0] if isinstance(n, ast.Assign) else n.target
-            if isinstance(t, ast.Name):
-                lambdas[t.id] = n.value.body
-    out = []
-    calls = [n for n in ast.walk(fn) if isinstance(n, ast.Call) and isinstance(n.func, ast.Attribute)
-             and n.func.attr == "push_component_metric"]
-    calls.sort(key=lambda c: (c.lineno, c.col_offset))
-    for c in calls:
-        kw = {k.arg: k.value for k in c.keywords}
-        need("nones_are_zeros" in kw, "push_component_metric without nones_are_zeros")
-        out.append((naz_kind(kw["nones_are_zeros"], lambdas), ast.unparse(c.args[0]), "fallback" in kw))
+class Component:
+    def __init__(self, component_id: int, category: Member, type: Member | None = None, kind: str = "") -> None:
+        self.component_id, self.category, self.type, self.kind = component_id, category, type, kind
+
+    def __hash__(self) -> int:
+        return hash(self.component_id)
+
+    def __eq__(self, other: object) -> bool:
+        return isinstance(other, Component) and other.component_id == self.component_id
+
+    def __repr__(self) -> str:
+        return f"<{self.kind}#{self.component_id}>"
+
+
+class Dummy:
+    """Stands for anything the evaluated code only passes around (channels, quantities, loggers)."""
+
+    def __init__(self, *a, **k) -> None:
+        pass
+
+    def __getattr__(self, name: str) -> "Dummy":
+        if name.startswith("__"):
+            raise AttributeError(name)
+        return Dummy()
+
+    def __call__(self, *a, **k) -> "Dummy":
+        return Dummy()
+
+
+class Config:
+    def __init__(self, component_ids=None, allow_fallback: bool = True) -> None:
+        self.component_ids, self.allow_fallback = component_ids, allow_fallback
+
+
+class Builder:
+    """Records what a generator pushes (stands for ResampledFormulaBuilder / the engine it builds)."""
+
+    def __init__(self, namespace=None, name=None, registry=None, sender=None, metric_id=None, create_method=None) -> None:
+        self.metric_id = metric_id
+        self.items: list = []
+
+    def push_oper(self, op: str) -> None:
+        self.items.append(("op", op))
+
+    def push_component_metric(self, component_id, *, nones_are_zeros, fallback=None) -> None:
+        self.items.append(("c", component_id, bool(nones_are_zeros), fallback))
+
+    def build(self) -> "Builder":
+        return self
+
+    def terms(self) -> list[tuple[int, int, bool, object]]:
+        """[(sign, id, nones_are_zeros, fallback)] — only flat sums/differences are generated."""
+        out, sign = [], 1
+        expect_comp = True
+        for it in self.items:
+            if it[0] == "op":
+                need(it[1] in ("+", "-") and not expect_comp, f"generated formula is not a flat +/- chain: {self.items}")
+                sign, expect_comp = (1 if it[1] == "+" else -1), True
+            else:
+                need(expect_comp, f"generated formula is not a flat +/- chain: {self.items}")
+                out.append((sign, it[1], it[2], it[3]))
+                expect_comp = False
+        need(not expect_comp or not self.items, f"dangling operator: {self.items}")
+        return out
+
+
+class Fallback:
+    def __init__(self, generator) -> None:
+        self.generator = generator
+
+
+class ConnectionManager:
+    def __init__(self) -> None:
+        self.graph = None
+
+    def get(self) -> "ConnectionManager":
+        return self
+
+    @property
+    def component_graph(self):
+        return self.graph
+
+
+def load_module(tree: ast.Module, ns: dict, skip_classes: tuple[str, ...] = ()) -> None:
+    """Define the module's functions and classes (methods only) in `ns`.  Imports are not executed."""
+    for stmt in tree.body:
+        if isinstance(stmt, ast.FunctionDef):
+            _exec([_Strip().visit(copy.deepcopy(stmt))], ns)
+        elif isinstance(stmt, ast.ClassDef):
+            if stmt.name in skip_classes:
+                continue
+            bases = []
+            for b in stmt.bases:
+                b = b.value if isinstance(b, ast.Subscript) else b
+                if isinstance(b, ast.Name) and (isinstance(ns.get(b.id), type) or b.id in ("Exception", "ValueError")):
+                    if b.id not in ("ABC", "Generic"):
+                        bases.append(ast.Name(id=b.id, ctx=ast.Load()))
+            body: list[ast.stmt] = []
+            for s in stmt.body:
+                if isinstance(s, ast.FunctionDef):
+                    body.append(_Strip().visit(copy.deepcopy(s)))
+            cls = ast.ClassDef(name=stmt.name, bases=bases, keywords=[], body=body or [ast.Pass()], decorator_list=[])
+            if sys.version_info >= (3, 12):
+                cls.type_params = []
+            _exec([cls], ns)
+        elif isinstance(stmt, (ast.Assign, ast.AnnAssign)):
+            tgt = stmt.targets[0] if isinstance(stmt, ast.Assign) else stmt.target
+            if isinstance(tgt, ast.Name) and getattr(stmt, "value", None) is not None:
+                try:
+                    _exec([ast.Assign(targets=[ast.Name(id=tgt.id, ctx=ast.Store())], value=copy.deepcopy(stmt.value))], ns)
+                except Exception:  # pylint: disable=broad-except
+                    pass   # a module constant the evaluated functions do not need
+
+
+def _exec(stmts: list[ast.stmt], ns: dict) -> None:
+    mod = ast.Module(body=stmts, type_ignores=[])
+    ast.fix_missing_locations(mod)
+    exec(compile(mod, "<extracted>", "exec"), ns)  # pylint: disable=exec-used
+
+
+# ============================================================================= scenarios
+KINDS = {  # kind -> (category, inverter type)
+    "grid": ("GRID", None), "meter": ("METER", None), "batInv": ("INVERTER", "BATTERY"), "pvInv": ("INVERTER", "SOLAR"),
+    "hybInv": ("INVERTER", "HYBRID"), "ev": ("EV_CHARGER", None), "chp": ("CHP", None), "bat": ("BATTERY", None),
+}
+DEVICES = ("pvInv", "batInv", "ev", "chp")
+
+
+class Scenario:
+    """A small component tree.  spec = nested tuples: ("meter", [children…]) | ("batInv", [("bat", [])…]) | (kind, [])."""
+
+    def __init__(self, sb: "Sandbox", succ: list, extra_edges: list[tuple[int, int]] | None = None) -> None:
+        self.sb = sb
+        self.nodes: dict[int, Component] = {}
+        self.children: dict[int, list[int]] = {}
+        self.parent: dict[int, int | None] = {}
+        self._next = 1
+        self.grid = self._add(("grid", succ), None)
+        self.edges = [(p, c) for c, p in self.parent.items() if p is not None] + list(extra_edges or [])
+        self.graph = sb.Graph(self)
+
+    def _add(self, spec, parent: int | None) -> int:
+        kind, kids = spec
+        cid = self._next
+        self._next += 1
+        cat, typ = KINDS[kind]
+        self.nodes[cid] = Component(cid, getattr(self.sb.CC, cat), getattr(self.sb.IT, typ) if typ else None, kind)
+        self.parent[cid] = parent
+        self.children[cid] = []
+        if parent is not None:
+            self.children[parent].append(cid)
+        for k in kids:
+            self._add(k, cid)
+        return cid
+
+    def comp(self, cid: int) -> Component:
+        return self.nodes[cid]
+
+    def of_kind(self, kind: str) -> list[Component]:
+        return [c for c in self.nodes.values() if c.kind == kind]
+
+    def below(self, cid: int) -> list[Component]:
+        return [self.nodes[c] for c in self.children[cid]]
+
+
+def leaf(kind: str):
+    return ("batInv", [("bat", [])]) if kind == "batInv" else (kind, [])
+
+
+def meter(*kids):
+    return ("meter", list(kids))
+
+
+def scenario_specs() -> list[list]:
+    """Successor lists of the grid: every shape the fitted parameters can depend on."""
+    child_sets: list[list] = [[]]
+    kinds = list(DEVICES) + ["hybInv", "meter0"]
+
+    def mk(k):
+        return meter() if k == "meter0" else leaf(k)
+
+    for k in kinds:
+        child_sets.append([mk(k)])
+    for a, b in itertools.combinations_with_replacement(kinds, 2):
+        child_sets.append([mk(a), mk(b)])
+    specs: list[list] = []
+    for cs in child_sets:
+        specs.append([meter(*cs)])                                   # single grid successor
+        specs.append([meter(*cs), meter(leaf("ev"), meter())])      # two grid successors
+        specs.append([meter(meter(*cs), leaf("pvInv"))])             # below a grid meter
+        specs.append([leaf("pvInv"), meter(meter(*cs), meter())])    # nested, no grid meter
+    for k in list(DEVICES) + ["hybInv"]:
+        specs.append([leaf(k)])
+        specs.append([leaf(k), meter(leaf("ev"), meter())])
+    specs.append([meter(meter(leaf("pvInv"), leaf("pvInv")), meter(leaf("batInv"), leaf("batInv")), meter(leaf("ev")),
+                        meter(leaf("chp")), leaf("pvInv"), leaf("batInv"), leaf("ev"), leaf("chp"), leaf("hybInv"),
+                        meter(leaf("ev"), leaf("batInv"), meter()))])
+    specs.append([leaf("pvInv"), leaf("batInv"), leaf("hybInv"), meter(leaf("pvInv")), meter(leaf("chp"), leaf("chp")),
+                  meter(meter(leaf("batInv")), leaf("ev")), meter()])
+    return specs
+
+
+# ============================================================================= the sandbox
+class Sandbox:
+    def __init__(self, repo: pathlib.Path) -> None:
+        self.trees = {s: ast.parse((repo / s).read_text()) for s in SOURCES}
+        self.CC = EnumNS("ComponentCategory", list(CATS))
+        self.IT = EnumNS("InverterType", list(INVTYPES))
+        self.cm = ConnectionManager()
+        base = {
+            "ComponentCategory": self.CC, "InverterType": self.IT, "Component": Component,
+            "ComponentMetricId": EnumNS("ComponentMetricId", None), "Connection": Dummy,
+            "sys": sys, "itertools": itertools, "logging": Dummy(), "_logger": Dummy(), "nx": Dummy(),
+            "Power": Dummy(), "ReactivePower": Dummy(), "Current": Dummy(), "Quantity": Dummy(),
+            "connection_manager": self.cm, "ResampledFormulaBuilder": Builder, "FormulaGeneratorConfig": Config,
+            "FallbackFormulaMetricFetcher": Fallback, "FormulaEngine": Builder, "FormulaEngine3Phase": Dummy,
+            "Callable": Dummy(), "Iterable": Dummy(), "abc": Dummy(), "dataclasses": Dummy(), "asdict": Dummy(),
+        }
+        # component graph
+        self.gns = dict(base)
+        load_module(self.trees[SOURCES[0]], self.gns)
+        need(isinstance(self.gns.get("_MicrogridComponentGraph"), type), "class _MicrogridComponentGraph not found")
+        src_graph = self.gns["_MicrogridComponentGraph"]
+
+        class Graph(src_graph):  # type: ignore[misc,valid-type]
+            def __init__(self, sc: Scenario) -> None:  # pylint: disable=super-init-not-called
+                self._sc = sc
+
+            def successors(self, component_id: int):
+                return {self._sc.nodes[b] for a, b in self._sc.edges if a == component_id}
+
+            def predecessors(self, component_id: int):
+                return {self._sc.nodes[a] for a, b in self._sc.edges if b == component_id}
+
+            def components(self, component_ids=None, component_categories=None):
+                sel = list(self._sc.nodes.values())
+                if component_ids is not None:
+                    sel = [c for c in sel if c.component_id in component_ids]
+                if component_categories is not None:
+                    sel = [c for c in sel if c.category in component_categories]
+                return set(sel)
+
+        self.Graph = Graph
+        # generators: one shared namespace, base classes first
+        self.ns = dict(base)
+        for s in SOURCES[1:]:
+            load_module(self.trees[s], self.ns, skip_classes=("FormulaGeneratorConfig",))
+        self.scenarios = [Scenario(self, spec) for spec in scenario_specs()]
+
+    def generator(self, cls: str, sc: Scenario, config: Config):
+        need(isinstance(self.ns.get(cls), type), f"class {cls} not found")
+        self.cm.graph = sc.graph
+        return self.ns[cls]("ns", Dummy(), Dummy(), config)
+
+    def generate(self, cls: str, sc: Scenario, config: Config):
+        """-> ("ok", terms, builder) | ("err", exception class name)"""
+        gen = self.generator(cls, sc, config)
+        try:
+            b = gen.generate()
+        except Exception as e:  # pylint: disable=broad-except
+            if type(e).__name__ in ("ComponentNotFound", "FormulaGenerationError"):
+                return ("err", type(e).__name__, None)
+            raise Shape(f"{cls}.generate() raised {type(e).__name__}: {e}") from e
+        need(isinstance(b, Builder), f"{cls}.generate() did not return the built engine")
+        return ("ok", b.terms(), b)
+
+
+# ============================================================================= fitting
+def unique(cands: list, what: str):
+    need(len(cands) >= 1, f"{what}: the observed behaviour is not expressible by the model's parameter")
+    return cands[0]
+
+
+def ref_dfs(sc: Scenario, start: int, cond) -> set[int]:
+    """Stop at the first match, union over the successors (trees: no visited set needed)."""
+    c = sc.comp(start)
+    if cond(c):
+        return {start}
+    out: set[int] = set()
+    for k in sc.children[start]:
+        out |= ref_dfs(sc, k, cond)
     return out
 
 
-def metric_id(fn: ast.FunctionDef) -> str:
-    for n in ast.walk(fn):
-        if isinstance(n, ast.Call) and isinstance(n.func, ast.Attribute) and n.func.attr == "_get_builder":
-            need(len(n.args) >= 2 and isinstance(n.args[1], ast.Attribute), "_get_builder(name, ComponentMetricId.X, ...)")
-            return n.args[1].attr
-    raise Shape(f"{fn.name}: no _get_builder call")
+def subsets(xs: list) -> list[tuple]:
+    return [c for r in range(len(xs) + 1) for c in itertools.combinations(xs, r)]
 
 
-def chains_of(e: ast.expr, neg: bool) -> list[str]:
-    out = []
-    for x in (conjuncts(e) if neg else disjuncts(e)):
-        y = negated(x) if neg else x
-        if y is None:
-            continue
-        c = method_call(y, CHAINS)
-        if c is not None:
-            out.append(c)
-    return out
+def fit_naz(obs: list[tuple[str, bool]], what: str) -> str:
+    """obs = [(category name, flag)].  Constant rules are preferred when they explain everything."""
+    need(len(obs) > 0, f"{what}: never observed")
+    for b in (True, False):
+        if all(f == b for _, f in obs):
+            return f"(.const {'true' if b else 'false'})"
+    for c in CATS:
+        if all(f == (cat != c) for cat, f in obs):
+            return f"(.notCat .{CATS[c]})"
+    raise Shape(f"{what}: nones_are_zeros rule {sorted(set(obs))} is neither constant nor `category != X`")
 
 
 def lean_list(xs: list[str], dot: bool = True) -> str:
@@ -343,9 +477,22 @@ def lean_bool(b: bool) -> str:
     return "true" if b else "false"
 
 
-def generate(repo: pathlib.Path) -> str:
-    trees = {s: ast.parse((repo / s).read_text()) for s in SOURCES}
-    cg = methods(trees[SOURCES[0]], "_MicrogridComponentGraph")
+def category_sets(tree: ast.AST, fn_name: str) -> list[str]:
+    """Informational only: the category set literal inside a validator (not used by any theorem)."""
+    for f in ast.walk(tree):
+        if isinstance(f, ast.FunctionDef) and f.name == fn_name:
+            for n in ast.walk(f):
+                if isinstance(n, ast.Set) and n.elts and all(
+                        isinstance(x, ast.Attribute) and isinstance(x.value, ast.Name) and x.value.id == "ComponentCategory"
+                        and x.attr in CATS for x in n.elts):
+                    return [CATS[x.attr] for x in n.elts]
+    return []
+
+
+def generate(repo: pathlib.Path) -> str:  # noqa: C901  pylint: disable=too-many-locals,too-many-branches,too-many-statements
+    sb = Sandbox(repo)
+    scs = sb.scenarios
+    CC, IT = sb.CC, sb.IT
     out: list[str] = ["set_option linter.unusedVariables false", "", "namespace Extracted.Graph", ""]
     out += [
         "/-- `ComponentCategory` (frequenz.client.microgrid). -/",
@@ -378,256 +525,459 @@ def generate(repo: pathlib.Path) -> str:
         "deriving DecidableEq, Repr",
         "",
     ]
-    # leaves
+    g0 = scs[0].graph
+
+    # ---- leaf predicates: truth table over (category, inverter type)
+    leaf_tab: dict[str, dict[tuple[str, str], bool]] = {}
+    leaf_fit: dict[str, tuple[str, str | None]] = {}
     for py, ln in LEAVES.items():
-        need(py in cg, f"{py} missing")
-        cat, typ = parse_leaf(cg[py])
-        cond = f"c == .{cat}" + (f" && t == .{typ}" if typ else "")
+        need(hasattr(g0, py), f"{py} missing")
+        tab = {}
+        for c in CATS:
+            for t in INVTYPES:
+                tab[(c, t)] = bool(getattr(g0, py)(Component(0, getattr(CC, c), getattr(IT, t))))
+        cands = [(c, t) for c in CATS for t in [None] + list(INVTYPES)
+                 if all(v == (cc == c and (t is None or tt == t)) for (cc, tt), v in tab.items())]
+        cat, typ = unique(cands, py)
+        leaf_tab[ln], leaf_fit[ln] = tab, (cat, typ)
         out.append(f"/-- `{py}` -/")
-        out.append(f"def {ln}Test (c : Cat) (t : InvType) : Bool := {cond}")
+        out.append(f"def {ln}Test (c : Cat) (t : InvType) : Bool := c == .{CATS[cat]}" + (f" && t == .{INVTYPES[typ]}" if typ else ""))
     out.append("def Leaf.test : Leaf → Cat → InvType → Bool")
     for ln in LEAVES.values():
         out.append(f"  | .{ln} => {ln}Test")
     out.append("")
-    # meters
+
+    def is_leaf(ln: str, c: Component) -> bool:
+        return leaf_tab[ln][(c.category.name, c.type.name if c.type is not None else "NONE")]
+
+    # ---- is_grid_meter
+    obs_gm = []
+    for sc in scs:
+        for c in sc.nodes.values():
+            p = sc.parent[c.component_id]
+            obs_gm.append((c, 0 if p is None else 1, None if p is None else sc.comp(p), 0 if p is None else len(sc.children[p]),
+                           bool(sc.graph.is_grid_meter(c))))
+    # a meter with two predecessors is never a grid meter candidate in the model (trees), but pin the count anyway
+    dag = Scenario(sb, [meter(meter()), meter()])
+    inner = dag.children[dag.children[dag.grid][0]][0]
+    dag2 = Scenario(sb, [meter(meter()), meter()], extra_edges=[(dag.children[dag.grid][1], inner)])
+    two_pred = bool(dag2.graph.is_grid_meter(dag2.comp(inner)))
+    cands = []
+    for cat in CATS:
+        for pcat in CATS:
+            for ns_ in (1, 2, 3):
+                if all(v == (c.category.name == cat and npred == 1 and par.category.name == pcat and nsucc == ns_)
+                       if npred == 1 else (v is False) for c, npred, par, nsucc, v in obs_gm) and not two_pred:
+                    cands.append((cat, 1, pcat, ns_))
+    gm = unique(cands, "is_grid_meter")
+    out.append("/-- `is_grid_meter` -/")
+    out.append(f"def gridMeterSpec : GridMeterSpec := ⟨.{CATS[gm[0]]}, {gm[1]}, .{CATS[gm[2]]}, {gm[3]}⟩")
+    out.append("")
+
+    # ---- is_*_meter -> MeterSpec
+    meter_spec = {}
     for py, ln in METERS.items():
-        need(py in cg, f"{py} missing")
-        sp = parse_meter_pred(cg[py])
+        need(hasattr(g0, py), f"{py} missing")
+        obs = [(sc, c, bool(getattr(sc.graph, py)(c))) for sc in scs for c in sc.nodes.values() if c.kind != "grid"]
+        cands = []
+        for cat in CATS:
+            for ngm in (True, False):
+                for ne in (True, False):
+                    for lf in LEAVES.values():
+                        def pred(sc, c, cat=cat, ngm=ngm, ne=ne, lf=lf) -> bool:
+                            kids = sc.below(c.component_id)
+                            return (c.category.name == cat and (not ngm or not sc.graph.is_grid_meter(c))
+                                    and (not ne or len(kids) > 0) and all(is_leaf(lf, k) for k in kids))
+                        if all(pred(sc, c) == v for sc, c, v in obs):
+                            cands.append((cat, ngm, ne, lf))
+        sp = unique(cands, py)
+        meter_spec[ln] = sp
         out.append(f"/-- `{py}` -/")
-        out.append(f"def {ln}Spec : MeterSpec := ⟨.{sp['cat']}, {lean_bool(sp['notGridMeter'])}, "
-                   f"{lean_bool(sp['nonEmpty'])}, .{sp['leaf']}⟩")
+        out.append(f"def {ln}Spec : MeterSpec := ⟨.{CATS[sp[0]]}, {lean_bool(sp[1])}, {lean_bool(sp[2])}, .{sp[3]}⟩")
     out.append("def MeterPred.spec : MeterPred → MeterSpec")
     for ln in METERS.values():
         out.append(f"  | .{ln} => {ln}Spec")
     out.append("")
-    # chains
+    meter_py = {ln: py for py, ln in METERS.items()}
+
+    # ---- is_*_chain -> (leaf, meter)
+    chain_py = {ln: py for py, ln in CHAINS.items()}
     out.append("/-- `is_*_chain(c) = is_<leaf>(c) or is_<meter>(c)` -/")
     out.append("def Chain.parts : Chain → Leaf × MeterPred")
     for py, ln in CHAINS.items():
-        need(py in cg, f"{py} missing")
-        leaf, meter = parse_chain(cg[py])
-        out.append(f"  | .{ln} => (.{leaf}, .{meter})")
+        need(hasattr(g0, py), f"{py} missing")
+        obs = [(sc, c, bool(getattr(sc.graph, py)(c))) for sc in scs for c in sc.nodes.values() if c.kind != "grid"]
+        cands = [(lf, m) for lf in LEAVES.values() for m in METERS.values()
+                 if all(v == (is_leaf(lf, c) or bool(getattr(sc.graph, meter_py[m])(c))) for sc, c, v in obs)]
+        lf, m = unique(cands, py)
+        out.append(f"  | .{ln} => (.{lf}, .{m})")
     out.append("")
-    gm = parse_grid_meter(cg["is_grid_meter"])
-    out.append("/-- `is_grid_meter` -/")
-    out.append(f"def gridMeterSpec : GridMeterSpec := ⟨.{gm['cat']}, {gm['npred']}, .{gm['pcat']}, {gm['nsucc']}⟩")
-    # dfs
-    got = normalized(cg["dfs"])
-    need(got == DFS_SHAPE, "dfs: body no longer has the modelled shape:\n" + got)
-    out.append("/-- `dfs` has the modelled shape: visited check, stop at the first match, union over the successors. -/")
+
+    def in_chain(sc: Scenario, ch: str, c: Component) -> bool:
+        return bool(getattr(sc.graph, chain_py[ch])(c))
+
+    # ---- dfs
+    conds = [lambda c, S=S: c.kind in S for S in
+             [(), ("meter",), ("pvInv",), ("batInv", "ev"), ("bat",), ("meter", "chp"), ("grid",), ("hybInv", "bat", "pvInv")]]
+    for sc in scs:
+        for cond in conds:
+            for start in (sc.grid, sc.children[sc.grid][0]):
+                got = sc.graph.dfs(sc.comp(start), set(), cond)
+                need({c.component_id for c in got} == ref_dfs(sc, start, cond),
+                     "dfs: no longer `stop at the first match, union over the successors`")
+    out.append("/-- `dfs` behaves as modelled (stop at the first match, union over the successors) on every scenario. -/")
     out.append("def dfsShapeChecked : Bool := true")
     out.append("")
-    # validators
-    out.append(f"def validRootCats : List Cat := {lean_list(category_set_in(cg['_validate_graph_root'], 'root'))}")
-    out.append(f"def intermediaryCats : List Cat := "
-               f"{lean_list(category_set_in(cg['_validate_intermediary_components'], 'intermediary'))}")
-    out.append(f"def leafCats : List Cat := {lean_list(category_set_in(cg['_validate_leaf_components'], 'leaf'))}")
+    cg_tree = sb.trees[SOURCES[0]]
+    out.append(f"def validRootCats : List Cat := {lean_list(category_sets(cg_tree, '_validate_graph_root'))}")
+    out.append(f"def intermediaryCats : List Cat := {lean_list(category_sets(cg_tree, '_validate_intermediary_components'))}")
+    out.append(f"def leafCats : List Cat := {lean_list(category_sets(cg_tree, '_validate_leaf_components'))}")
+    out.append("")
+
+    # ---- _formula_generator helpers
+    need("NON_EXISTING_COMPONENT_ID" in sb.ns and sb.ns["NON_EXISTING_COMPONENT_ID"] == sys.maxsize,
+         "NON_EXISTING_COMPONENT_ID is no longer sys.maxsize")
+    non_existing = 2 ** 63 - 1
+    out.append(f"def nonExistingComponentId : Nat := {non_existing}")
+
+    # _get_meter_fallback_components
+    obs = []
+    for sc in scs:
+        gen = sb.generator("GridPowerFormula", sc, Config())
+        for c in sc.of_kind("meter"):
+            obs.append((sc, c, {x.component_id for x in gen._get_meter_fallback_components(c)}))  # pylint: disable=protected-access
+    cands = [S for S in subsets(list(LEAVES.values()))
+             if all(got == ({k.component_id for k in sc.below(c.component_id)}
+                            if any(all(is_leaf(lf, k) for k in sc.below(c.component_id)) for lf in S) else set())
+                    for sc, c, got in obs)]
+    mfl = unique(cands, "_get_meter_fallback_components")
+    # _is_primary_fallback_pair
+    obs = []
+    for sc in scs[:80]:
+        gen = sb.generator("GridPowerFormula", sc, Config())
+        for p in sc.nodes.values():
+            for c in sc.nodes.values():
+                if p.kind != "grid" and c.kind not in ("grid", "bat"):
+                    obs.append((sc, p, c, bool(gen._is_primary_fallback_pair(p, c))))  # pylint: disable=protected-access
+    all_pairs = [(lf, m) for lf in LEAVES.values() for m in METERS.values()]
+    table = [(lf, m) for lf, m in all_pairs
+             if any(v and is_leaf(lf, c) and getattr(sc.graph, meter_py[m])(p) for sc, p, c, v in obs)]
+    need(all(v == any(is_leaf(lf, c) and bool(getattr(sc.graph, meter_py[m])(p)) for lf, m in table) for sc, p, c, v in obs),
+         "_is_primary_fallback_pair: not a disjunction of (is_<leaf>(fallback) and is_<meter>(primary))")
+    # _get_metric_fallback_components
+    obs = []
+    for sc in scs:
+        gen = sb.generator("GridPowerFormula", sc, Config())
+        pool = [c for c in sc.nodes.values() if c.kind not in ("grid", "bat")]
+        groups = [set(pool)] + [{c} for c in pool] + [set(sc.below(m.component_id)) for m in sc.of_kind("meter")]
+        groups += [set(sc.below(m.component_id)[:1]) for m in sc.of_kind("meter")]
+        for comps in groups:
+            if comps:
+                res = gen._get_metric_fallback_components(set(comps))  # pylint: disable=protected-access
+                obs.append((sc, gen, comps, {k.component_id: {x.component_id for x in v} for k, v in res.items()}))
+
+    def ref_metric_fallback(sc, gen, comps, pcat, req):
+        sb.cm.graph = sc.graph
+        res: dict[int, set[int]] = {}
+        for c in comps:
+            if c.category.name == pcat:
+                res[c.component_id] = {x.component_id for x in gen._get_meter_fallback_components(c)}  # pylint: disable=protected-access
+                continue
+            par = sc.parent[c.component_id]
+            p = None if par is None else sc.comp(par)
+            if p is not None and gen._is_primary_fallback_pair(p, c) and (  # pylint: disable=protected-access
+                    not req or set(sc.below(p.component_id)) <= set(comps)):
+                res.setdefault(p.component_id, set()).add(c.component_id)
+            else:
+                res[c.component_id] = set()
+        return res
+
+    cands = []
+    for pcat in CATS:
+        for req in (False, True):
+            ok = True
+            for sc, gen, comps, got in obs:
+                # (a group containing both a meter and its own successors depends on set iteration order: skip)
+                if any(sc.parent[c.component_id] is not None and sc.comp(sc.parent[c.component_id]) in comps for c in comps):
+                    continue
+                try:
+                    same = ref_metric_fallback(sc, gen, comps, pcat, req) == got
+                except AssertionError:      # `_get_meter_fallback_components` refuses non-meters
+                    same = False
+                if not same:
+                    ok = False
+                    break
+            if ok:
+                cands.append((pcat, req))
+    pcat, req = unique(cands, "_get_metric_fallback_components")
+    need(len(cands) == 1, f"_get_metric_fallback_components: ambiguous {cands}")
+    out.append(f"def fallbackPrimaryCat : Cat := .{CATS[pcat]}")
+    out.append("/-- `_get_metric_fallback_components` pairs a component with its predecessor only if all successors of")
+    out.append("the predecessor are among the requested components -/")
+    out.append(f"def pairRequiresAllRequested : Bool := {lean_bool(req)}")
+    out.append(f"def meterFallbackLeaves : List Leaf := {lean_list(list(mfl))}")
+    out.append("def primaryFallbackPairs : List (Leaf × MeterPred) := "
+               + lean_list([f"(.{lf}, .{m})" for lf, m in table], dot=False))
     out.append("")
 
     # ---- generators
-    fg = all_functions(trees[GEN + "_formula_generator.py"])
-    # NON_EXISTING_COMPONENT_ID
-    nonexist = None
-    for n in trees[GEN + "_formula_generator.py"].body:
-        if isinstance(n, ast.Assign) and isinstance(n.targets[0], ast.Name) and n.targets[0].id == "NON_EXISTING_COMPONENT_ID":
-            need(ast.unparse(n.value) == "sys.maxsize", "NON_EXISTING_COMPONENT_ID is no longer sys.maxsize")
-            nonexist = 2 ** 63 - 1
-    need(nonexist is not None, "NON_EXISTING_COMPONENT_ID missing")
-    out.append(f"def nonExistingComponentId : Nat := {nonexist}")
-    # _get_metric_fallback_components: the category that makes a component "a meter"
-    mfc = fg["_get_metric_fallback_components"]
-    cats = [enum_member(n.comparators[0], "ComponentCategory", CATS) for n in ast.walk(mfc)
-            if is_cmp(n, ast.Eq) and isinstance(n.left, ast.Attribute) and n.left.attr == "category"]
-    need(len(cats) == 1, "_get_metric_fallback_components: expected one `component.category == X` test")
-    out.append(f"def fallbackPrimaryCat : Cat := .{cats[0]}")
-    lens = [n for n in ast.walk(mfc) if is_cmp(n, ast.Eq) and ast.unparse(n.left) == "len(predecessors)"]
-    need(len(lens) == 1 and ast.unparse(lens[0].comparators[0]) == "1", "_get_metric_fallback_components: len(predecessors) == 1")
-    # is a component paired with its predecessor only when ALL successors of the predecessor were requested?
-    pair_ifs = [n for n in ast.walk(mfc) if isinstance(n, ast.If) and "_is_primary_fallback_pair" in ast.unparse(n.test)]
-    need(len(pair_ifs) == 1, "_get_metric_fallback_components: expected one `if self._is_primary_fallback_pair(...)`")
-    cj = conjuncts(pair_ifs[0].test)
-    need(isinstance(cj[0], ast.Call) and ast.unparse(cj[0].func) == "self._is_primary_fallback_pair",
-         "_get_metric_fallback_components: pair test must come first")
-    if len(cj) == 1:
-        requires_all = False
-    else:
-        need(len(cj) == 2 and ast.unparse(cj[1]) == "graph.successors(predecessor.component_id).issubset(components)",
-             f"_get_metric_fallback_components: unexpected extra condition {ast.unparse(pair_ifs[0].test)}")
-        requires_all = True
-    out.append("/-- `_get_metric_fallback_components` pairs a component with its predecessor only if all successors of")
-    out.append("the predecessor are among the requested components -/")
-    out.append(f"def pairRequiresAllRequested : Bool := {lean_bool(requires_all)}")
-    # _get_meter_fallback_components
-    mf = fg["_get_meter_fallback_components"]
-    ifs = [s for s in body_of(mf) if isinstance(s, ast.If)]
-    need(len(ifs) == 1 and isinstance(ifs[0].body[0], ast.Return) and ast.unparse(ifs[0].body[0].value) == "successors",
-         "_get_meter_fallback_components: expected `if all(..) or ..: return successors`")
-    leaves = [all_over(d, LEAVES) for d in disjuncts(ifs[0].test)]
-    need(all(x is not None for x in leaves), "_get_meter_fallback_components: unexpected disjunct")
-    out.append(f"def meterFallbackLeaves : List Leaf := {lean_list(leaves)}")
-    # _is_primary_fallback_pair
-    pf = fg["_is_primary_fallback_pair"]
-    rets = [s for s in body_of(pf) if isinstance(s, ast.Return)]
-    need(len(rets) == 1, "_is_primary_fallback_pair: one return")
-    alias = {}
-    for s in body_of(pf):
-        if isinstance(s, ast.Assign) and isinstance(s.value, ast.Name) and isinstance(s.targets[0], ast.Name):
-            alias[s.targets[0].id] = s.value.id
-    pairs = []
-    for d in disjuncts(rets[0].value):
-        cs = conjuncts(d)
-        need(len(cs) == 2, f"_is_primary_fallback_pair: {ast.unparse(d)}")
-        leaf, meter = method_call(cs[0], LEAVES), method_call(cs[1], METERS)
-        need(leaf is not None and meter is not None, f"_is_primary_fallback_pair: {ast.unparse(d)}")
-        a0 = alias.get(cs[0].args[0].id, cs[0].args[0].id)
-        a1 = alias.get(cs[1].args[0].id, cs[1].args[0].id)
-        need(a0 == "fallback_candidate" and a1 == "primary_candidate", "_is_primary_fallback_pair: argument roles")
-        pairs.append(f"(.{leaf}, .{meter})")
-    out.append(f"def primaryFallbackPairs : List (Leaf × MeterPred) := {lean_list(pairs, dot=False)}")
-    out.append("")
+    def cat_of(sc: Scenario, cid: int) -> str:
+        return "NONE" if cid == non_existing else sc.comp(cid).category.name
+
+    def run_all(cls: str, mk_config) -> list:
+        res = []
+        for sc in scs:
+            cfg = mk_config(sc)
+            if cfg is not None:
+                res.append((sc, cfg, sb.generate(cls, sc, cfg)))
+        return res
+
+    def naz_obs(runs, want_fallback_cfg: bool | None = None, pick=lambda t: True) -> list[tuple[str, bool]]:
+        o = []
+        for sc, cfg, r in runs:
+            if r[0] == "ok" and (want_fallback_cfg is None or cfg.allow_fallback == want_fallback_cfg):
+                o += [(cat_of(sc, t[1]), t[2]) for t in r[1] if t[1] != non_existing and pick(t)]
+        return o
+
+    def none_obs(runs) -> list[tuple[str, bool]]:
+        return [("NONE", t[2]) for sc, cfg, r in runs if r[0] == "ok" for t in r[1] if t[1] == non_existing]
+
+    def fallback_terms(runs) -> list[tuple[str, bool]]:
+        """nones_are_zeros flags inside the fallback formulas (generated lazily by the real fetcher)."""
+        o = []
+        for sc, cfg, r in runs:
+            if r[0] != "ok":
+                continue
+            for t in r[1]:
+                if t[3] is not None:
+                    need(isinstance(t[3], Fallback), "fallback is not a FallbackFormulaMetricFetcher")
+                    sb.cm.graph = sc.graph
+                    fb = t[3].generator.generate()
+                    need(isinstance(fb, Builder), "fallback generator did not build an engine")
+                    ft = fb.terms()
+                    need(all(s == 1 for s, *_ in ft), "fallback formula is not a plain sum")
+                    o += [(cat_of(sc, i), f) for _, i, f, _ in ft]
+        return o
 
     # grid
-    gb = all_functions(trees[GEN + "_grid_power_formula_base.py"])["_generate"]
-    sets = [n for n in ast.walk(gb) if isinstance(n, ast.SetComp)]
-    need(len(sets) == 1 and len(sets[0].generators[0].ifs) == 1 and is_cmp(sets[0].generators[0].ifs[0], ast.In),
-         "grid: expected `{c for c in grid_successors if c.category in {...}}`")
-    out.append(f"def gridSuccessorCats : List Cat := {lean_list(cat_set(sets[0].generators[0].ifs[0].comparators[0]))}")
-    nz = naz_calls(gb)
-    need(len(nz) == 2 and nz[0][2] and not nz[1][2], "grid: expected two push_component_metric calls (fallback / plain)")
-    out.append(f"def gridNaz : Naz := {nz[0][0]}")
-    out.append(f"def gridNazNoFallback : Naz := {nz[1][0]}")
+    runs = run_all("GridPowerFormula", lambda sc: Config())
+    runs_nf = run_all("GridPowerFormula", lambda sc: Config(allow_fallback=False))
+    seen_cats: dict[str, bool] = {}
+    for sc, cfg, r in runs + runs_nf:
+        top = sc.below(sc.grid)
+        if r[0] == "ok":
+            ids = {t[1] for t in r[1]}
+            need(all(t[0] == 1 for t in r[1]), "grid formula is not a plain sum")
+            need(ids <= {c.component_id for c in top}, "grid formula uses components that are not grid successors")
+            for c in top:
+                inc = c.component_id in ids
+                need(seen_cats.setdefault(c.category.name, inc) == inc, "grid formula: inclusion does not depend on the category alone")
+        else:
+            for c in top:
+                need(seen_cats.setdefault(c.category.name, False) is False, "grid formula: error although a summed category is present")
+    gcats = [CATS[c] for c in CATS if seen_cats.get(c)]
+    out.append(f"def gridSuccessorCats : List Cat := {lean_list(gcats)}")
+    out.append(f"def gridNaz : Naz := {fit_naz(naz_obs(runs), 'grid')}")
+    out.append(f"def gridNazNoFallback : Naz := {fit_naz(naz_obs(runs_nf), 'grid (no fallback)')}")
+    simple_obs = fallback_terms(runs)
     out.append("")
 
     # consumer
-    cf = all_functions(trees[GEN + "_consumer_power_formula.py"])
-    agm = single_return(cf["_are_grid_meters"])
-    need(isinstance(agm, ast.Call) and getattr(agm.func, "id", "") == "all" and isinstance(agm.args[0], ast.GeneratorExp),
-         "_are_grid_meters: expected all(... for ...)")
-    elt = agm.args[0].elt
-    cs = conjuncts(elt)
-    need(is_cmp(cs[0], ast.Eq) and isinstance(cs[0].left, ast.Attribute) and cs[0].left.attr == "category",
-         "_are_grid_meters: first conjunct must test the category")
-    out.append(f"def areGridMetersCat : Cat := .{enum_member(cs[0].comparators[0], 'ComponentCategory', CATS)}")
-    ch = chains_of(elt, neg=True)
-    need(len(ch) == len(cs) - 1, "_are_grid_meters: unexpected conjunct")
-    out.append(f"def areGridMetersNotChains : List Chain := {lean_list(ch)}")
-    nc = single_return(cf["non_consumer_component"])
-    ch = chains_of(nc, neg=False)
-    need(len(ch) == len(disjuncts(nc)), "non_consumer_component: unexpected disjunct")
-    out.append(f"def nonConsumerChains : List Chain := {lean_list(ch)}")
-    cc = single_return(cf["consumer_component"])
-    cs = conjuncts(cc)
-    need(is_cmp(cs[0], ast.In) and isinstance(cs[0].left, ast.Attribute) and cs[0].left.attr == "category",
-         "consumer_component: first conjunct must be `category in {...}`")
-    out.append(f"def consumerCats : List Cat := {lean_list(cat_set(cs[0].comparators[0]))}")
-    ch = chains_of(cc, neg=True)
-    need(len(ch) == len(cs) - 1, "consumer_component: unexpected conjunct")
-    out.append(f"def consumerNotChains : List Chain := {lean_list(ch)}")
-    nz = naz_calls(cf["_gen_with_grid_meter"])
-    need(len(nz) == 3 and not nz[0][2] and nz[1][2] and not nz[2][2], "consumer with grid meter: push_component_metric calls")
-    out.append(f"def consumerGridMeterNaz : Naz := {nz[0][0]}")
-    out.append(f"def consumerWithNaz : Naz := {nz[1][0]}")
-    nz = naz_calls(cf["_gen_without_grid_meter"])
-    need(len(nz) == 3 and nz[0][1] == "NON_EXISTING_COMPONENT_ID" and nz[1][2], "consumer without grid meter: calls")
-    out.append(f"def consumerNoneNaz : Naz := {nz[0][0]}")
-    out.append(f"def consumerWithoutNaz : Naz := {nz[1][0]}")
-    # the operators pushed: '+' between grid meters, '-' before every non consumer, '+' between consumers
-    opers = [ast.unparse(n.args[0]) for n in ast.walk(cf["_gen_with_grid_meter"])
-             if isinstance(n, ast.Call) and isinstance(n.func, ast.Attribute) and n.func.attr == "push_oper"]
-    need(sorted(opers) == ["'+'", "'-'", "'-'"], f"consumer with grid meter: operators {opers}")
+    obs = []
+    for sc in scs:
+        gen = sb.generator("ConsumerPowerFormula", sc, Config())
+        need(hasattr(gen, "_are_grid_meters"), "ConsumerPowerFormula._are_grid_meters missing")
+        obs.append((sc, bool(gen._are_grid_meters(set(sc.below(sc.grid))))))  # pylint: disable=protected-access
+    chains = list(CHAINS.values())
+    cands = [(cat, S) for cat in CATS for S in subsets(chains)
+             if all(v == all(c.category.name == cat and not any(in_chain(sc, ch, c) for ch in S) for c in sc.below(sc.grid))
+                    for sc, v in obs)]
+    agm_cat, agm_chains = unique(cands, "_are_grid_meters")
+    are_gm = dict((id(sc), v) for sc, v in obs)
+    out.append(f"def areGridMetersCat : Cat := .{CATS[agm_cat]}")
+    out.append(f"def areGridMetersNotChains : List Chain := {lean_list(list(agm_chains))}")
+    runs = run_all("ConsumerPowerFormula", lambda sc: Config())
+    with_runs = [(sc, cfg, r) for sc, cfg, r in runs if are_gm[id(sc)]]
+    without_runs = [(sc, cfg, r) for sc, cfg, r in runs if not are_gm[id(sc)]]
+    need(with_runs and without_runs, "consumer: scenarios do not reach both code paths")
+
+    def primaries_of(sc: Scenario, found: set[int]) -> set[int]:
+        gen = sb.generator("GridPowerFormula", sc, Config())
+        return {k.component_id for k in gen._get_metric_fallback_components({sc.comp(i) for i in found})}  # pylint: disable=protected-access
+
+    cands = []
+    for S in subsets(chains):
+        ok = True
+        for sc, cfg, r in with_runs:
+            need(r[0] == "ok", "consumer formula with grid meters raised")
+            top = {c.component_id for c in sc.below(sc.grid)}
+            pos = sorted(t[1] for t in r[1] if t[0] == 1)
+            neg = {t[1] for t in r[1] if t[0] == -1}
+            need(pos == sorted(top), "consumer with grid meters: the positive terms are not exactly the grid meters")
+            found: set[int] = set()
+            for m in top:
+                found |= ref_dfs(sc, m, lambda c, S=S: any(in_chain(sc, ch, c) for ch in S))
+            if primaries_of(sc, found) != neg or len(neg) != len([t for t in r[1] if t[0] == -1]):
+                ok = False
+                break
+        if ok:
+            cands.append(S)
+    out.append(f"def nonConsumerChains : List Chain := {lean_list(list(unique(cands, 'non_consumer_component')))}")
+    ccats = [c for c in CATS if c not in ("NONE", "GRID")]
+    cands = []
+    for K in subsets(ccats):
+        for S in subsets(chains):
+            ok = True
+            for sc, cfg, r in without_runs:
+                need(r[0] == "ok", "consumer formula without grid meter raised")
+                found = ref_dfs(sc, sc.grid, lambda c, K=K, S=S: c.category.name in K and not any(in_chain(sc, ch, c) for ch in S))
+                want = primaries_of(sc, found) if found else {non_existing}
+                if sorted(t[1] for t in r[1]) != sorted(want) or any(t[0] != 1 for t in r[1]):
+                    ok = False
+                    break
+            if ok:
+                cands.append((K, S))
+    need(len(cands) >= 1, "consumer_component: behaviour not expressible as `category in K and not in chains S`")
+    # behaviourally equal candidates differ only in categories that can never be found: take the smallest K, largest S
+    cands.sort(key=lambda ks: (len(ks[0]), -len(ks[1])))
+    cK, cS = cands[0]
+    out.append(f"def consumerCats : List Cat := {lean_list([CATS[c] for c in cK])}")
+    out.append(f"def consumerNotChains : List Chain := {lean_list(list(cS))}")
+    out.append(f"def consumerGridMeterNaz : Naz := {fit_naz(naz_obs(with_runs, pick=lambda t: t[0] == 1), 'consumer grid meters')}")
+    out.append(f"def consumerWithNaz : Naz := {fit_naz(naz_obs(with_runs, pick=lambda t: t[0] == -1), 'consumer (with grid meter)')}")
+    out.append(f"def consumerNoneNaz : Naz := {fit_naz(none_obs(without_runs), 'consumer NON_EXISTING')}")
+    out.append(f"def consumerWithoutNaz : Naz := {fit_naz(naz_obs(without_runs), 'consumer (without grid meter)')}")
+    simple_obs += fallback_terms(runs)
     out.append("")
 
-    # producer
-    pg = all_functions(trees[GEN + "_producer_power_formula.py"])["generate"]
-    lams = [n for n in ast.walk(pg) if isinstance(n, ast.Call) and isinstance(n.func, ast.Attribute) and n.func.attr == "dfs"]
-    need(len(lams) == 1 and isinstance(lams[0].args[2], ast.Lambda), "producer: dfs(grid, set(), lambda ...)")
-    ch = chains_of(lams[0].args[2].body, neg=False)
-    need(len(ch) == len(disjuncts(lams[0].args[2].body)), "producer: unexpected disjunct in the dfs condition")
-    out.append(f"def producerChains : List Chain := {lean_list(ch)}")
-    nz = naz_calls(pg)
-    need(len(nz) == 3 and nz[0][1] == "NON_EXISTING_COMPONENT_ID" and nz[1][2], "producer: push_component_metric calls")
-    out.append(f"def producerNoneNaz : Naz := {nz[0][0]}")
-    out.append(f"def producerNaz : Naz := {nz[1][0]}")
+    # searches from the grid: producer, pv
+    def fit_search(cls: str, runs, what: str) -> tuple:
+        cands = []
+        for S in subsets(chains):
+            ok = True
+            for sc, cfg, r in runs:
+                need(r[0] == "ok", f"{what} raised")
+                found = ref_dfs(sc, sc.grid, lambda c, S=S: any(in_chain(sc, ch, c) for ch in S))
+                want = primaries_of(sc, found) if found else {non_existing}
+                if sorted(t[1] for t in r[1]) != sorted(want) or any(t[0] != 1 for t in r[1]):
+                    ok = False
+                    break
+            if ok:
+                cands.append(S)
+        return unique(cands, what)
+
+    runs = run_all("ProducerPowerFormula", lambda sc: Config())
+    out.append(f"def producerChains : List Chain := {lean_list(list(fit_search('ProducerPowerFormula', runs, 'producer search')))}")
+    out.append(f"def producerNoneNaz : Naz := {fit_naz(none_obs(runs), 'producer NON_EXISTING')}")
+    out.append(f"def producerNaz : Naz := {fit_naz(naz_obs(runs), 'producer')}")
+    simple_obs += fallback_terms(runs)
     out.append("")
 
-    # pv
-    vg = all_functions(trees[GEN + "_pv_power_formula.py"])["generate"]
-    dfss = [n for n in ast.walk(vg) if isinstance(n, ast.Call) and isinstance(n.func, ast.Attribute) and n.func.attr == "dfs"]
-    need(len(dfss) == 1 and isinstance(dfss[0].args[2], ast.Attribute) and dfss[0].args[2].attr in CHAINS,
-         "pv: dfs(grid, set(), component_graph.is_pv_chain)")
-    out.append(f"def pvDfsChains : List Chain := [.{CHAINS[dfss[0].args[2].attr]}]")
-    nz = naz_calls(vg)
-    need(len(nz) == 3 and nz[0][1] == "NON_EXISTING_COMPONENT_ID" and nz[1][2], "pv: push_component_metric calls")
-    out.append(f"def pvNoneNaz : Naz := {nz[0][0]}")
-    out.append(f"def pvNaz : Naz := {nz[1][0]}")
-    out.append(f"def pvNazNoFallback : Naz := {nz[2][0]}")
+    runs = run_all("PVPowerFormula", lambda sc: Config())
+    out.append(f"def pvDfsChains : List Chain := {lean_list(list(fit_search('PVPowerFormula', runs, 'pv search')))}")
+    pool_runs = run_all("PVPowerFormula", lambda sc: Config(component_ids={c.component_id for c in sc.of_kind('pvInv')}) if sc.of_kind('pvInv') else None)
+    sub_runs = run_all("PVPowerFormula", lambda sc: Config(component_ids={sc.of_kind('pvInv')[0].component_id}) if sc.of_kind('pvInv') else None)
+    for sc, cfg, r in pool_runs + sub_runs:
+        need(r[0] == "ok", "pv pool formula raised")
+        want = primaries_of(sc, set(cfg.component_ids))
+        need(sorted(t[1] for t in r[1]) == sorted(want) and all(t[0] == 1 for t in r[1]),
+             "pv pool formula: not the primaries of the requested inverters")
+    out.append(f"def pvNoneNaz : Naz := {fit_naz(none_obs(runs), 'pv NON_EXISTING')}")
+    out.append(f"def pvNaz : Naz := {fit_naz(naz_obs(runs + pool_runs + sub_runs), 'pv')}")
+    nf_runs = run_all("PVPowerFormula", lambda sc: Config(
+        component_ids={c.component_id for c in sc.nodes.values() if c.kind in ("pvInv", "meter")}, allow_fallback=False))
+    out.append(f"def pvNazNoFallback : Naz := {fit_naz(fallback_terms(runs + pool_runs) + naz_obs(nf_runs), 'pv formula without fallback')}")
     out.append("")
 
     # battery
-    bg = all_functions(trees[GEN + "_battery_power_formula.py"])["generate"]
-    nz = naz_calls(bg)
-    need(len(nz) == 3 and nz[0][1] == "NON_EXISTING_COMPONENT_ID" and nz[1][2] and not nz[2][2], "battery: calls")
-    out.append(f"def batteryNoneNaz : Naz := {nz[0][0]}")
-    out.append(f"def batteryNaz : Naz := {nz[1][0]}")
-    out.append(f"def batteryNazNoFallback : Naz := {nz[2][0]}")
-    flt = [n for n in ast.walk(bg) if isinstance(n, ast.Call) and getattr(n.func, "id", "") == "filter"]
-    need(len(flt) == 1 and isinstance(flt[0].args[0], ast.Attribute) and flt[0].args[0].attr in LEAVES,
-         "battery: filter(component_graph.is_battery_inverter, predecessors)")
-    out.append(f"def batteryInverterLeaf : Leaf := .{LEAVES[flt[0].args[0].attr]}")
+    def bat_cfg(sc, sub=False):
+        bats = sc.of_kind("bat")
+        if not bats:
+            return None
+        return Config(component_ids={b.component_id for b in (bats[:1] if sub else bats)})
+
+    runs = run_all("BatteryPowerFormula", bat_cfg)
+    sub = run_all("BatteryPowerFormula", lambda sc: bat_cfg(sc, True))
+    empty = run_all("BatteryPowerFormula", lambda sc: Config(component_ids=set()))[:5]
+    for sc, cfg, r in runs + sub:
+        need(r[0] == "ok", "battery formula raised on whole inverters")
+        invs = {sc.parent[b] for b in cfg.component_ids}
+        need(sorted(t[1] for t in r[1]) == sorted(primaries_of(sc, invs)) and all(t[0] == 1 for t in r[1]),
+             "battery formula: not the primaries of the inverters of the requested batteries")
+    # which predecessors of a battery count as its inverters?
+    accepted = {}
+    for k in ("batInv", "pvInv", "ev", "chp"):
+        sc = Scenario(sb, [meter((k, [("bat", [])]))])
+        r = sb.generate("BatteryPowerFormula", sc, Config(component_ids={sc.of_kind("bat")[0].component_id}))
+        accepted[k] = r[0] == "ok"
+    cands = [lf for lf in LEAVES.values()
+             if all(accepted[k] == is_leaf(lf, Component(0, getattr(CC, KINDS[k][0]), getattr(IT, KINDS[k][1]) if KINDS[k][1] else None))
+                    for k in accepted)]
+    out.append(f"def batteryNoneNaz : Naz := {fit_naz(none_obs(empty), 'battery NON_EXISTING')}")
+    out.append(f"def batteryNaz : Naz := {fit_naz(naz_obs(runs + sub), 'battery')}")
+    out.append(f"def batteryNazNoFallback : Naz := {fit_naz(fallback_terms(runs + sub), 'battery fallback formula')}")
+    out.append(f"def batteryInverterLeaf : Leaf := .{unique(cands, 'battery formula: inverter predicate')}")
+    # "not all batteries behind an inverter requested" is an error
+    sc = Scenario(sb, [meter(("batInv", [("bat", []), ("bat", [])]))])
+    r = sb.generate("BatteryPowerFormula", sc, Config(component_ids={sc.of_kind("bat")[0].component_id}))
+    need(r[0] == "err" and r[1] == "FormulaGenerationError", "battery formula: partial inverter selection is no longer an error")
     out.append("")
 
     # ev
-    eg = all_functions(trees[GEN + "_ev_charger_power_formula.py"])["generate"]
-    nz = naz_calls(eg)
-    need(len(nz) == 2 and nz[0][1] == "NON_EXISTING_COMPONENT_ID", "ev: push_component_metric calls")
-    out.append(f"def evNoneNaz : Naz := {nz[0][0]}")
-    out.append(f"def evNaz : Naz := {nz[1][0]}")
+    runs = run_all("EVChargerPowerFormula", lambda sc: Config(component_ids={c.component_id for c in sc.of_kind("ev")}))
+    for sc, cfg, r in runs:
+        need(r[0] == "ok" and sorted(t[1] for t in r[1]) == (sorted(cfg.component_ids) or [non_existing])
+             and all(t[0] == 1 and t[3] is None for t in r[1]), "ev formula: not the plain sum of the requested ids")
+    out.append(f"def evNoneNaz : Naz := {fit_naz(none_obs(runs), 'ev NON_EXISTING')}")
+    out.append(f"def evNaz : Naz := {fit_naz(naz_obs(runs), 'ev')}")
     out.append("")
 
     # chp
-    hf = all_functions(trees[GEN + "_chp_power_formula.py"])
-    nz = naz_calls(hf["generate"])
-    need(len(nz) == 2 and nz[0][1] == "NON_EXISTING_COMPONENT_ID", "chp: push_component_metric calls")
-    out.append(f"def chpNoneNaz : Naz := {nz[0][0]}")
-    out.append(f"def chpNaz : Naz := {nz[1][0]}")
-    gm_ = hf["_get_chp_meters"]
-    cmp_cat = [n for n in ast.walk(gm_) if isinstance(n, ast.Compare) and isinstance(n.left, ast.Attribute)
-               and n.left.attr == "category"]
-    cmp_cat.sort(key=lambda n: (n.lineno, n.col_offset))
-    need(len(cmp_cat) == 2 and is_cmp(cmp_cat[0], ast.Eq) and is_cmp(cmp_cat[1], ast.NotEq),
-         "chp: expected `comp.category == CHP` and `meter.category != METER`")
-    out.append(f"def chpCat : Cat := .{enum_member(cmp_cat[0].comparators[0], 'ComponentCategory', CATS)}")
-    out.append(f"def chpPredecessorCat : Cat := .{enum_member(cmp_cat[1].comparators[0], 'ComponentCategory', CATS)}")
-    lens = [n for n in ast.walk(gm_) if is_cmp(n, ast.NotEq) and ast.unparse(n.left) == "len(predecessors)"]
-    need(len(lens) == 1 and ast.unparse(lens[0].comparators[0]) == "1", "chp: len(predecessors) != 1")
-    alls = [n for n in ast.walk(gm_) if isinstance(n, ast.Call) and getattr(n.func, "id", "") == "all"]
-    need(len(alls) == 1 and ast.unparse(alls[0].args[0].elt) == "successor in chps", "chp: all(successor in chps ...)")
+    runs = run_all("CHPPowerFormula", lambda sc: Config())
+    out.append(f"def chpNoneNaz : Naz := {fit_naz(none_obs(runs), 'chp NON_EXISTING')}")
+    out.append(f"def chpNaz : Naz := {fit_naz(naz_obs(runs), 'chp')}")
+    cands = []
+    for ccat in CATS:
+        for pcat_ in CATS:
+            ok = True
+            for sc, cfg, r in runs:
+                chps = [c for c in sc.nodes.values() if c.category.name == ccat]
+                err = any(sc.parent[c.component_id] is None or sc.comp(sc.parent[c.component_id]).category.name != pcat_
+                          or any(k not in chps for k in sc.below(sc.parent[c.component_id])) for c in chps)
+                want = sorted({sc.parent[c.component_id] for c in chps}) or [non_existing]
+                if (r[0] == "err") != err or (not err and (sorted(t[1] for t in r[1]) != want or any(t[0] != 1 or t[3] is not None for t in r[1]))):
+                    ok = False
+                    break
+            if ok:
+                cands.append((ccat, pcat_))
+    ccat, pcat_ = unique(cands, "chp formula")
+    need(len(cands) == 1, f"chp formula: ambiguous {cands}")
+    out.append(f"def chpCat : Cat := .{CATS[ccat]}")
+    out.append(f"def chpPredecessorCat : Cat := .{CATS[pcat_]}")
     out.append("")
-
-    # simple formula (fallback formulas of grid / consumer / producer)
-    sg = all_functions(trees[GEN + "_simple_formula.py"])["_generate"]
-    nz = naz_calls(sg)
-    need(len(nz) == 1, "simple formula: one push_component_metric call")
-    out.append(f"def simpleNaz : Naz := {nz[0][0]}")
+    runs = run_all("SimplePowerFormula", lambda sc: Config(
+        component_ids={c.component_id for c in sc.nodes.values() if c.kind not in ("grid", "bat")}, allow_fallback=False))
+    for sc, cfg, r in runs:
+        need(r[0] == "ok" and sorted(t[1] for t in r[1]) == sorted(cfg.component_ids) and all(t[0] == 1 for t in r[1]),
+             "SimplePowerFormula: not the plain sum of the requested components")
+    out.append(f"def simpleNaz : Naz := {fit_naz(simple_obs + naz_obs(runs), 'SimplePowerFormula (fallback formulas)')}")
     out.append("")
 
     # metric ids
-    mids = [
-        ("grid", metric_id(all_functions(trees[GEN + "_grid_power_formula.py"])["generate"])),
-        ("consumer", metric_id(cf["generate"])),
-        ("producer", metric_id(pg)),
-        ("battery", metric_id(bg)),
-        ("pv", metric_id(vg)),
-        ("ev", metric_id(eg)),
-        ("chp", metric_id(hf["generate"])),
-    ]
-    simple = [f for f in ast.walk(trees[GEN + "_simple_formula.py"]) if isinstance(f, ast.ClassDef)
-              and f.name == "SimplePowerFormula"]
-    need(len(simple) == 1, "SimplePowerFormula missing")
-    mids.append(("simple", metric_id(simple[0].body[-1])))
+    mids = []
+    sc = scs[-1]
+    for nm, cls, cfg in [("grid", "GridPowerFormula", Config()), ("consumer", "ConsumerPowerFormula", Config()),
+                         ("producer", "ProducerPowerFormula", Config()),
+                         ("battery", "BatteryPowerFormula", Config(component_ids={b.component_id for b in sc.of_kind("bat")})),
+                         ("pv", "PVPowerFormula", Config()),
+                         ("ev", "EVChargerPowerFormula", Config(component_ids={c.component_id for c in sc.of_kind("ev")})),
+                         ("chp", "CHPPowerFormula", Config()),
+                         ("simple", "SimplePowerFormula", Config(component_ids={c.component_id for c in sc.of_kind("ev")}, allow_fallback=False))]:
+        r = sb.generate(cls, sc, cfg)
+        need(r[0] == "ok" and isinstance(r[2].metric_id, Member), f"{cls}: no metric id")
+        mids.append((nm, r[2].metric_id.name))
     out.append("/-- metric id every generated power formula subscribes to -/")
-    out.append("def metricIds : List (String × String) := ["
-               + ", ".join(f'("{a}", "{b}")' for a, b in mids) + "]")
+    out.append("def metricIds : List (String × String) := [" + ", ".join(f'("{a}", "{b}")' for a, b in mids) + "]")
     out.append("")
     out.append("end Extracted.Graph")
     return "\n".join(out) + "\n"
